@@ -65,13 +65,22 @@ def check(ctx, entries, reach, rule="PANIC", modular=True, budget=300000):
     eng = Engine(F, budget=budget)
     eng.inline_filter = (lambda p: p not in members) if modular else None
     n = 0
+    folds = fold_closures(F, reach)
     for p in reach:
         b = F.body(p)
         if b is None or b["derived"]:
             continue
         try:
             eng.steps = 0
-            eng.call_path(p, eng.symbolic_args(b))
+            args = eng.symbolic_args(b)
+            st0 = None
+            if p in folds and len(args) >= 2:
+                # the accumulator of an Iterator::fold step: integer components are counters (counter axiom: an
+                # accumulator that grows by a small constant per element of a finite iterator cannot overflow 64 bits)
+                from engine.state import State
+                st0 = State()
+                args[1] = counter_value(eng, st0, args[1], "acc")
+            eng.call_path(p, args, st=st0)
             n += 1
         except Budget as e:
             R.violation(rule, p + "|budget", "analysis budget exceeded: %s" % e, function=p, kind="UNRECOGNISED-SHAPE")
@@ -80,3 +89,51 @@ def check(ctx, entries, reach, rule="PANIC", modular=True, budget=300000):
     R.extra["panic_functions_analysed"] = n
     report(ctx, eng, rule, entry=entries[0] if entries else None)
     return eng
+
+
+def fold_closures(F, reach):
+    """Closure bodies handed to Iterator::fold somewhere in `reach`."""
+    from engine import cfg
+    out = set()
+    for p in reach:
+        b = F.body(p)
+        if b is None:
+            continue
+        for blk in b["blocks"]:
+            t = blk["term"]
+            f = cfg.callee_of(t)
+            if f and f["path"].endswith("Iterator::fold"):
+                for o in t["args"][1:]:
+                    pl = o.get("c") or o.get("m")
+                    k = o.get("k")
+                    ty = None
+                    if pl is not None and not pl["p"]:
+                        ty = F.ty(b["locals"][pl["l"]]["ty"])
+                    elif k is not None:
+                        ty = F.ty(k["ty"])
+                    if ty and ty["k"] == "closure":
+                        d = ty.get("def") or ty.get("path")
+                        if d:
+                            out.add(d)
+                # fall back: closures defined in this function
+                for q in F.bodies:
+                    if q.startswith(p + "::{closure") and F.body(q)["arg_count"] == 3:
+                        out.add(q)
+    return out
+
+
+def counter_value(eng, st, v, name):
+    """Materialise an accumulator value with every unsigned 64-bit integer component declared a counter."""
+    from engine.values import Int, Struct, Top
+    from engine.lin import Lin
+    if isinstance(v, Top):
+        v = eng.M.force(st, v)
+    if isinstance(v, Int) and v.w == 64 and not v.signed:
+        s_ = v.lin.single_sym()
+        if s_:
+            eng.counters.add(s_)
+            eng.bounds[s_] = (0, 1 << 62)
+        return v
+    if isinstance(v, Struct):
+        return Struct(v.ty, tuple(counter_value(eng, st, f, "%s.%d" % (name, i)) for i, f in enumerate(v.fields)))
+    return v
